@@ -242,11 +242,22 @@ def run(ctx, model):
             # first chunk carries all control keys of the command (checked with the Spec's expected table through conforms)
         for klass_, msg in problems[:1]:
             ctx.violations.append({"signature": {"class": klass_, "medium": medium}, "what": msg, "case": dict(full_case, data=hexs(data) if len(data) <= 4096 else None, data_len=len(data), data_seed_note="data = the t_data token")})
+    # should the tree make the limit assignable on a live TupimageTerminal, an assignment must act like construction with it
+    import c08_cli
+    c08_cli.reconfigure_equivalence(ctx, cov, ctx.pick(12, 60), must_change=["max_command_size"])
     return cov
 
 
 def replay(ctx, model, rec):
     """Re-run one send case on the implementation and evaluate the size clause + lossless clause."""
+    if rec.get("case", {}).get("kind") == "reconfigure":
+        import c08_cli
+        n0 = len(ctx.violations)
+        c0 = rec["case"]
+        c08_cli.reconfigure_equivalence(ctx, common.Coverage("replay"), 60, must_change=sorted(k for k in c0["after"] if c0["after"][k] != c0["before"].get(k))[:1] or None)
+        mine = ctx.violations[n0:]
+        del ctx.violations[n0:]
+        return {"violates": bool(mine), "violations": [v["what"] for v in mine][:3]}
     case = rec["case"]
     tup = common.import_impl()
     gc = tup.graphics_command
